@@ -193,7 +193,7 @@ def gen_valid(rng, allow_public=True):
             for mname in rng.sample(METHS, rng.choice([0, 1, 2, 3, 4, 4])):
                 (ti, oi), (to, oo) = rng.choice(cands), rng.choice(cands)
                 ms.append({'name': mname, 'cs': rng.random() < 0.5, 'ss': rng.random() < 0.5, 'in': ti,
-                           'out': to})
+                           'out': to, 'cs_set': rng.random() < 0.5, 'ss_set': rng.random() < 0.5})
             f['services'].append({'name': sname, 'methods': ms})
     names = [f['name'] for f in files]
     r = rng.random()
@@ -762,7 +762,8 @@ def shape_signature(ds):
                         fn, path = types[t][0]
                         origins.add(('own' if fn == f['name'] else 'dep' if fn in f['deps'] else 'far') +
                                     str(min(len(path), 3)))
-        cards = sorted({(m['cs'], m['ss']) for s in f['services'] for m in s['methods']})
+        cards = sorted({(m['cs'] or (m.get('cs_set') and None), m['ss'] or (m.get('ss_set') and None))
+                        for s in f['services'] for m in s['methods']}, key=repr)
         sig.append((pathk, bool(f['package']), '.' in f['package'], tuple(len(s['methods']) for s in f['services']),
                     tuple(cards), tuple(sorted(origins))))
     return (ds.get('tag', ''), tuple(sig))
@@ -793,6 +794,9 @@ def check_cases(ctx, res, cases):
                 res.count('methods-per-service:%d' % len(s['methods']))
                 for m in s['methods']:
                     res.count('cardinality:%d%d' % (m['cs'], m['ss']))
+                    for k in ('cs', 'ss'):
+                        res.count('flag-field:' + ('true' if m[k] else 'explicit-false' if m.get(k + '_set')
+                                                   else 'absent'))
         res.signatures.add(shape_signature(c))
         res.sample({'descriptor_set': case, 'observed': impl}, limit=4)
         if model is not None:
@@ -885,7 +889,7 @@ def run(ctx):
     res.rule = ('PRNG descriptor sets of 1-4 files: packages (empty, single, dotted), paths with 0-2 directories, '
                 'hyphens, .proto/.protodevel/no/double suffix, a DAG of dependencies with `import public` edges, '
                 'messages top-level and nested up to 3 deep with the same simple names in several packages, 0-3 '
-                'services x 0-4 methods x 4 streaming combinations, request/reply types from the own file, a direct '
+                'services x 0-4 methods x 4 streaming combinations (each flag field absent / explicitly false / true), request/reply types from the own file, a direct '
                 'dependency or (7%) a public re-export; a separate stream with one irregularity each: undeclared '
                 'types, file_to_generate missing, duplicate method/service/type/file names, Python keywords as '
                 'method/message/directory names, digit-leading directories, __private and __dunder__ method '
